@@ -63,8 +63,9 @@ CLAIMS["C15"] = proof(
 CLAIMS["C07"] = proof(
     "History half proved at full strength: C07_hist — for every history (every initial count and add_permits argument, cancellation at every point incl. a notified waiter, completed futures kept alive, several releases in a row) "
     "in every quiescent reachable state with a permit available no polled acquire future is pending; from the ownership invariant of the event list (C07_invariant). The code proved is the repaired one (fix 4946253). "
-    "Schedule half NOT proved: under true thread interleaving a notified waiter can consume its notification after two releases were absorbed by it and then acquire without passing anything on (candidate defect, not yet reproduced with loom); "
-    "poll-granular histories cannot exhibit it. " + CORR, NOTE)
+    "Schedule half: the attempt to prove it exposed a genuine defect (F5: a notified waiter preempted inside its poll absorbs the notify(1) of later releases and then acquires without passing anything on), "
+    "reproduced on the real crate by the loom search (loomsearch/sem_absorbed_release) and repaired by fix 04640ce (a completing acquire notifies once more when permits are left); model, proofs and tie pins follow the repaired code; "
+    "the loom scenario runs on every check as search support (bounded exploration, not a proof). " + CORR, NOTE)
 
 CLAIMS["C05"] = proof(
     "History half proved at full strength: C05_hist — for every history shorter than 2^61 operations (lock and lock_arc futures, each polled with any wakers, spuriously, in any order; every outcome of the starvation clock "
